@@ -29,6 +29,7 @@ REGIONS = [
     ("ser/flavors.rs", 576, 686, ["C05", "C10"]),           # CRC ser
     ("ser/flavors.rs", 699, 722, ["C05"]),                  # Size
     ("ser/mod.rs", 476, 495, ["C05", "C10", "C11"]),        # serialize_with_flavor, serialized_size
+    ("ser/serializer.rs", 86, 390, ["C05", "C11"]),         # emitters: every storage failure -> error
     ("de/flavors.rs", 130, 190, ["C08", "C10", "C11"]),     # de Slice
     ("de/flavors.rs", 202, 311, ["C11"]),                   # SlidingBuffer, EIOReader
     ("de/flavors.rs", 346, 405, ["C11"]),                   # IOReader
@@ -130,7 +131,13 @@ def run_mutant(w, m):
     open(path, "w").write("\n".join(lines))
     res = {k: v for k, v in m.items() if not k.startswith("_")}
     try:
-        rc, o = sh("cargo test --workspace --no-fail-fast --offline", cwd=f"{w}/repo")
+        try:
+            rc, o = sh("cargo test --workspace --no-fail-fast --offline", cwd=f"{w}/repo", timeout=600)
+        except subprocess.TimeoutExpired:
+            sh("pkill -f 'wt-does-not-exist' || true")
+            res["status"] = "killed_by_suite"
+            res["note"] = "the repository's own tests did not terminate within 10 minutes"
+            return res
         if "error: could not compile" in o or "error[E" in o:
             res["status"] = "uncompilable"
             return res
